@@ -103,6 +103,10 @@ pub struct BoardInner {
     pub max_in_flight: HashMap<usize, i64>,
     /// source address base per node (send_back_addr = base + unique port)
     pub src: HashMap<usize, Multiaddr>,
+    /// fault injection: number of outbound substreams node `n` opens next that fail with an I/O error on first use
+    /// (the connection itself survives; the remote sees the stream reset)
+    pub stream_faults: HashMap<usize, u32>,
+    pub stream_faults_injected: u64,
 }
 
 #[derive(Clone)]
@@ -133,6 +137,8 @@ impl Board {
             in_flight: HashMap::new(),
             max_in_flight: HashMap::new(),
             src: HashMap::new(),
+            stream_faults: HashMap::new(),
+            stream_faults_injected: 0,
         })))
     }
     pub fn with<R>(&self, f: impl FnOnce(&mut BoardInner) -> R) -> R {
@@ -156,6 +162,12 @@ impl Board {
                 true
             }
             None => false,
+        })
+    }
+    /// the next `k` outbound substreams opened by `node` (on any connection) break on first use
+    pub fn fail_next_outbound_streams(&self, node: usize, k: u32) {
+        self.with(|b| {
+            b.stream_faults.insert(node, k);
         })
     }
     pub fn dial_log(&self) -> Vec<DialRec> {
@@ -433,11 +445,111 @@ impl Transport for SimTransport {
     }
 }
 
-/// SimTransport + real plaintext + real yamux
+/// SimTransport + real plaintext + real yamux (+ the substream fault-injection shim)
 pub fn build_transport(node: usize, board: &Board, key: &Keypair) -> libp2p_core::transport::Boxed<(PeerId, StreamMuxerBox)> {
-    SimTransport::new(node, board.clone())
-        .upgrade(Version::V1)
-        .authenticate(libp2p_plaintext::Config::new(key))
-        .multiplex(libp2p_yamux::Config::default())
-        .boxed()
+    let b = board.clone();
+    Transport::boxed(
+        SimTransport::new(node, board.clone())
+            .upgrade(Version::V1)
+            .authenticate(libp2p_plaintext::Config::new(key))
+            .multiplex(libp2p_yamux::Config::default())
+            .map(move |(p, m), _| (p, StreamMuxerBox::new(FaultMuxer { inner: m, node, board: b.clone() }))),
+    )
+}
+
+/// Passes everything through to the real muxer; outbound substreams can be armed (by
+/// `Board::fail_next_outbound_streams`) to fail with an I/O error on first use.
+pub struct FaultMuxer<M> {
+    inner: M,
+    node: usize,
+    board: Board,
+}
+
+pub struct FaultStream<S> {
+    inner: Option<S>,
+    broken: bool,
+}
+
+impl<S> FaultStream<S> {
+    fn fault(&mut self) -> io::Error {
+        // dropping the real stream resets it for the remote
+        self.inner = None;
+        io::Error::new(io::ErrorKind::ConnectionReset, "injected substream fault")
+    }
+}
+
+impl<S: futures::AsyncRead + Unpin> futures::AsyncRead for FaultStream<S> {
+    fn poll_read(mut self: Pin<&mut Self>, cx: &mut Context<'_>, buf: &mut [u8]) -> Poll<io::Result<usize>> {
+        if self.broken {
+            return Poll::Ready(Err(self.fault()));
+        }
+        match self.inner.as_mut() {
+            Some(s) => Pin::new(s).poll_read(cx, buf),
+            None => Poll::Ready(Err(io::ErrorKind::ConnectionReset.into())),
+        }
+    }
+}
+
+impl<S: futures::AsyncWrite + Unpin> futures::AsyncWrite for FaultStream<S> {
+    fn poll_write(mut self: Pin<&mut Self>, cx: &mut Context<'_>, buf: &[u8]) -> Poll<io::Result<usize>> {
+        if self.broken {
+            return Poll::Ready(Err(self.fault()));
+        }
+        match self.inner.as_mut() {
+            Some(s) => Pin::new(s).poll_write(cx, buf),
+            None => Poll::Ready(Err(io::ErrorKind::ConnectionReset.into())),
+        }
+    }
+    fn poll_flush(mut self: Pin<&mut Self>, cx: &mut Context<'_>) -> Poll<io::Result<()>> {
+        if self.broken {
+            return Poll::Ready(Err(self.fault()));
+        }
+        match self.inner.as_mut() {
+            Some(s) => Pin::new(s).poll_flush(cx),
+            None => Poll::Ready(Err(io::ErrorKind::ConnectionReset.into())),
+        }
+    }
+    fn poll_close(mut self: Pin<&mut Self>, cx: &mut Context<'_>) -> Poll<io::Result<()>> {
+        if self.broken {
+            return Poll::Ready(Err(self.fault()));
+        }
+        match self.inner.as_mut() {
+            Some(s) => Pin::new(s).poll_close(cx),
+            None => Poll::Ready(Ok(())),
+        }
+    }
+}
+
+impl<M> libp2p_core::muxing::StreamMuxer for FaultMuxer<M>
+where
+    M: libp2p_core::muxing::StreamMuxer + Unpin,
+    M::Substream: Unpin,
+{
+    type Substream = FaultStream<M::Substream>;
+    type Error = M::Error;
+
+    fn poll_inbound(mut self: Pin<&mut Self>, cx: &mut Context<'_>) -> Poll<Result<Self::Substream, Self::Error>> {
+        Pin::new(&mut self.inner).poll_inbound(cx).map_ok(|s| FaultStream { inner: Some(s), broken: false })
+    }
+    fn poll_outbound(mut self: Pin<&mut Self>, cx: &mut Context<'_>) -> Poll<Result<Self::Substream, Self::Error>> {
+        let node = self.node;
+        let board = self.board.clone();
+        Pin::new(&mut self.inner).poll_outbound(cx).map_ok(|s| {
+            let broken = board.with(|b| match b.stream_faults.get_mut(&node) {
+                Some(k) if *k > 0 => {
+                    *k -= 1;
+                    b.stream_faults_injected += 1;
+                    true
+                }
+                _ => false,
+            });
+            FaultStream { inner: Some(s), broken }
+        })
+    }
+    fn poll_close(mut self: Pin<&mut Self>, cx: &mut Context<'_>) -> Poll<Result<(), Self::Error>> {
+        Pin::new(&mut self.inner).poll_close(cx)
+    }
+    fn poll(mut self: Pin<&mut Self>, cx: &mut Context<'_>) -> Poll<Result<libp2p_core::muxing::StreamMuxerEvent, Self::Error>> {
+        Pin::new(&mut self.inner).poll(cx)
+    }
 }
